@@ -125,6 +125,7 @@ Definition ex_sig : cmdsig := match find_sig "magic-numbers" with Some s => s | 
 Definition ex_env : env := {| e_root := ["srv"; "work"; "proj"]; e_cwd := ["home"; "u"]; e_root_pats := ["lib/"]; e_cwd_pats := [] |}.
 Example C09_nonvacuous :
   resolve (e_cwd ex_env) (GP true (["srv"; "work"; "proj"] ++ ["src"; "mod.ts"])) = ["srv"; "work"; "proj"] ++ ["src"; "mod.ts"]
+  /\ resolve ["srv"; "elsewhere"] (GP false ([".."; "work"; "proj"] ++ ["src"; "mod.ts"])) = ["srv"; "work"; "proj"] ++ ["src"; "mod.ts"]
   /\ existsb excl_comp ["srv"; "work"; "proj"] = false
   /\ pats_clean (cs_ikind ex_sig) (ignore_pats ex_sig (Some ["tests/"; "*_test.py"])) (rooted ["srv"; "work"; "proj"] ++ String slash "") ["src"; "mod.ts"] = true
   /\ tspec_simple (tspec_of ex_sig LTs) = true
